@@ -2,7 +2,7 @@
 EXTENDS TypeTerm, Json, CSV, IOUtils
 DumpFile == IF "VERIF_DUMP" \in DOMAIN IOEnv THEN IOEnv.VERIF_DUMP ELSE ""
 DumpConstraint ==
-  IF DumpFile # "" /\ depth >= 1
+  IF DumpFile # "" /\ depth >= 1 /\ ~IsCFn(t)
     THEN CSVWrite("%1$s", <<ToJson([v |-> Render("@"), s |-> Struct(t), sh |-> Shape(t), e |-> east])>>, DumpFile)
     ELSE TRUE
 =============================================================================
